@@ -549,6 +549,18 @@ impl Node {
                     None => "ok 0".into(),
                 }
             }
+            "hold" => {
+                server::verif::hold(f[1]);
+                "ok".into()
+            }
+            "release" => {
+                server::verif::release(f[1]);
+                // let the released task run
+                for _ in 0..20 {
+                    tokio::time::sleep(std::time::Duration::from_millis(2)).await;
+                }
+                "ok".into()
+            }
             "raw-open" => {
                 match tokio::net::TcpStream::connect(&self.addr).await {
                     Ok(st) => {
